@@ -28,6 +28,8 @@ BaseBody(cfgC) ==
              Stmt("action", "act", <<>>),
              Stmt("leaf-list", "ll", << Stmt("type", "string", <<>>) >>) >>),
      Stmt("container", "e", << Uses("", "g") >>),
+     \* ordinary data nodes that happen to be CALLED input and output (not the input / output of an operation)
+     Stmt("container", "input", << Leaf("output"), Stmt("container", "output", << Leaf("gain") >>) >>),
      Stmt("list", "li", << Stmt("key", "k", <<>>), Leaf("k") >>),
      Stmt("rpc", "r", << Stmt("input", "input", << Leaf("i"), Stmt("choice", "rc", << Leaf("rs") >>) >>),
                          Stmt("output", "output", << Leaf("o") >>) >>),
@@ -387,7 +389,8 @@ SplitStmts == << Stmt("grouping", "g", << Leaf("gl") >>), Leaf("l1"),
                  Stmt("list", "li", << Stmt("key", "k", <<>>), Leaf("k") >>),
                  Stmt("container", "c2", << Leaf("x") >>) >>
 PartBody(asg, part) == SelectSeq([k \in 1..4 |-> [s |-> SplitStmts[k], p |-> asg[k]]], LAMBDA x : x.p = part)
-Body(asg, part) == LET b == PartBody(asg, part) IN [k \in 1..Len(b) |-> b[k].s]
+\* (the one typedef lives where the grouping lives: a typedef is contributed like everything else)
+Body(asg, part) == LET b == PartBody(asg, part) IN [k \in 1..Len(b) |-> b[k].s] \o (IF asg[1] = part THEN << TddOf("m") >> ELSE <<>>)
 SplitProg(asg, inc) ==
   LET mInc == CASE inc = "flat" -> <<"s1", "s2", "s3">> [] inc = "nested" -> <<"s1">> [] inc = "both" -> <<"s1", "s2", "s3">> [] inc = "rev" -> <<"s3", "s2">>
       s1Inc == CASE inc \in {"nested", "both"} -> <<"s2">> [] OTHER -> <<>>
@@ -402,7 +405,9 @@ SplitProg(asg, inc) ==
       \* a use, written in s1 and another one in s2, of the grouping wherever it lives (the module itself, the same
       \* submodule, a sibling included earlier or - s3 - later)
       s1Use == << Stmt("container", "c3", << Uses("", "g") >>) >>
-      s2Use == << Stmt("container", "c4", << Uses("", "g") >>) >>
+      \* (the leaf of the typedef'd type is written in s2: from there the typedef is at most one include away in every variant -
+      \* its own includes, or its module and what the module includes; a typedef two includes deep is not claimed, 13.9)
+      s2Use == << Stmt("container", "c4", << Uses("", "g") >>), Stmt("leaf", "lt", << Stmt("type", "tdd", <<>>) >>) >>
   IN Prog(("m" :> m) @@ ("s1" :> Sub("s1", "m", NoImp, s1Inc, Body(asg, "s1") \o s1Aug \o s1Use))
           @@ ("s2" :> Sub("s2", "m", NoImp, s2Inc, Body(asg, "s2") \o s2Aug \o s2Use))
           @@ ("s3" :> Sub("s3", "m", NoImp, <<>>, Body(asg, "s3"))) @@ ("b" :> b))
